@@ -42,6 +42,19 @@ class Ptr:
         return f'Ptr({s.obj},{s.off})'
 
 
+class PtrIte:
+    """a pointer that is `a` when c holds and `b` otherwise (std::clamp/std::max return references)"""
+    __slots__ = ('c', 'a', 'b')
+
+    def __init__(s, c, a, b):
+        s.c = c
+        s.a = a
+        s.b = b
+
+    def map(s, f):
+        return PtrIte(s.c, s.a.map(f) if isinstance(s.a, PtrIte) else f(s.a), s.b.map(f) if isinstance(s.b, PtrIte) else f(s.b))
+
+
 class Agg:
     __slots__ = ('e',)
 
@@ -328,6 +341,15 @@ class Bits:
             return s.simp(z3.Concat(*[z3.Extract(8 * i + 7, 8 * i, a) for i in range(bits // 8)]))
         if name == 'abs':
             return s.ite(st, s.icmp(st, 'slt', a, 0, bits), s.binop(st, 'sub', 0, a, bits), a, bits)
+        if name in ('fshl', 'fshr'):
+            # funnel shift of the concatenation a:b by c mod bits
+            b, c = args[1], args[2]
+            if not isinstance(c, int): raise Inconclusive('funnel shift by a symbolic amount')
+            c %= bits
+            if c == 0: return a if name == 'fshl' else b
+            if name == 'fshl':
+                return s.binop(st, 'or', s.binop(st, 'shl', a, c, bits), s.binop(st, 'lshr', b, bits - c, bits), bits)
+            return s.binop(st, 'or', s.binop(st, 'shl', a, bits - c, bits), s.binop(st, 'lshr', b, c, bits), bits)
         raise Inconclusive('int intrinsic ' + name)
 
     def pdep(s, src, mask):
